@@ -61,6 +61,7 @@ def run(ctx):
     terms, meta = [], []
     kinds_all = BT_KINDS + ITER_KINDS + ["none"]
     kindpairs = {}
+    variants = {}
     for _ in range(ncase):
         fname = rng.choice(list(OPS))
         ka, kb = gen_keys(rng, rng.choice(SHAPES), rng.choice([6, 16, 40]))
@@ -76,11 +77,17 @@ def run(ctx):
             # a plain python list holding None and ints cannot be sorted by python itself
             sa, sb = [((s[0], [k for k in s[1] if k != 0]) if s[0] in ITER_KINDS else s) for s in (sa, sb)]
         exp = expect(fname, sa, sb)
+        variant = rng.choice(["plain"] * 8 + ["evicted", "subclass"])
+        variants[variant] = variants.get(variant, 0) + 1
         # run on one C and one Py env of the same family/mode + always II
         results = {}
         for ek in sorted({key, (key[0], "Py" if key[1] == "C" else "C", key[2]), ("II", "C", None), ("II", "Py", None)}, key=repr):
             env = envs[ek]
-            got, _, unchanged = env.call(fname, sa, sb)
+            env.variant = variant
+            try:
+                got, _, unchanged = env.call(fname, sa, sb)
+            finally:
+                env.variant = "plain"
             results[ek] = got
             if not unchanged:
                 ctx.oracle_failure("%s:%s:operand-modified" % (ek[1], fname), "operand modified by %s(%r, %r) in %s" % (fname, sa, sb, ek),
@@ -104,6 +111,7 @@ def run(ctx):
         ctx.corr_mismatch("SetOps model vs implementation", {"case": meta[i]})
     operators(ctx, envs)
     ctx.cov["operand_kind_pairs"] = len(kindpairs)
+    ctx.cov["operand_variants"] = variants
     ctx.cov["families"] = fams
 
 
@@ -138,7 +146,11 @@ def operators(ctx, envs):
             A, B = set(sa[1]), set(sb[1])
             want = {"|": A | B, "&": A & B, "-": A - B, "^": A ^ B}[sym[0]]
             barg = b
-            if inplace and sb[0] in ("list", "tuple") and rng.random() < 0.4:
+            if inplace and rng.random() < 0.08:
+                barg = a                  # s |= s, s &= s, s -= s, s ^= s
+                B = set(A)
+                want = {"|": A | B, "&": A & B, "-": A - B, "^": A ^ B}[sym[0]]
+            elif inplace and sb[0] in ("list", "tuple") and rng.random() < 0.4:
                 # a one-shot iterable operand (iterator / generator)
                 barg = iter(b) if rng.random() < 0.5 else (x for x in b)
             try:
